@@ -93,6 +93,7 @@ func (m *manager) Run() (err error) {
 		// shrink polls
 		copy(polls, m.polls[:numLoops])
 		for idx := numLoops; idx < len(m.polls); idx++ {
+			verifPoint(vpPollClosing, m.polls[idx], idx)
 			// close redundant polls
 			if err = m.polls[idx].Close(); err != nil {
 				logger.Printf("NETPOLL: poller close failed: %v\n", err)
@@ -107,6 +108,7 @@ func (m *manager) Run() (err error) {
 			if err != nil {
 				return err
 			}
+			verifPoint(vpPollOpened, poll, idx)
 			polls[idx] = poll
 			go poll.Wait()
 		}
@@ -140,10 +142,12 @@ START:
 		runtime.Gosched()
 		goto START
 	}
+	verifPoint(vpPickSlow, m, 0)
 	// adjust polls
 	// m.Run() will finish very quickly, so will not many goroutines block on Pick.
 	_ = m.Run()
 
+	verifPoint(vpPickRunDone, m, 0)
 	//nolint:staticcheck // SA9003: empty branch
 	if !atomic.CompareAndSwapInt32(&m.status, managerInitializing, managerInitialized) {
 		// SetNumLoops called during m.Run() which cause CAS failed
